@@ -20,6 +20,8 @@ SERVICE_TABLES = {
     "S_t1c": [{"name": "a1.svc", "type": "login"}, {"name": "b2.svc", "type": "login"}],
     "S_t1d": [{"name": "a1.svc", "type": "combined"}],
     "S_none": [],
+    # iauth_xquery not loaded at all (core alone / core + iauth_class): marker entry understood by IAuth.tla (XQ) and the driver
+    "S_noxq": [{"name": "", "type": "@noxquery"}],
 }
 
 INVARIANTS = ["P01_once", "P02_gate", "P03_prompt", "P04_stray", "P05_content", "P06_queries", "P07_scope",
